@@ -25,6 +25,9 @@ pub struct Printer<'a> {
     /// initializer of an annotated let, the value of an assignment, a call argument): a range may
     /// then be printed without any suffix
     typed_ctx: bool,
+    /// no token of the current expression statement has been printed yet (a conditional that opens
+    /// an expression statement ends it: `if c { a } else { b } * 3;` is a parse error)
+    at_stmt_start: bool,
 }
 
 fn is_atom(e: &Expr) -> bool {
@@ -53,10 +56,11 @@ fn is_postfix_base(e: &Expr) -> bool {
 
 impl<'a> Printer<'a> {
     pub fn new(defs: &'a Defs, fns: &'a [FnDef], style: u64) -> Self {
-        Printer { toks: vec![], defs, fns, style, head_depth: 0, drop_suffix_pct: 0, drop_annot_pct: 0, force_suffix: 0, typed_ctx: false }
+        Printer { toks: vec![], defs, fns, style, head_depth: 0, drop_suffix_pct: 0, drop_annot_pct: 0, force_suffix: 0, typed_ctx: false, at_stmt_start: false }
     }
 
     fn emit(&mut self, t: &str) -> u32 {
+        self.at_stmt_start = false;
         self.toks.push(t.to_string());
         (self.toks.len() - 1) as u32
     }
@@ -135,7 +139,7 @@ impl<'a> Printer<'a> {
         };
         // a conditional is a primary expression: `if a { 1 } else if b { 2 } else { 3 } + 4` is the
         // sum of the whole conditional and 4 (outside of heads only, see `head`)
-        let bare_conditional = matches!(child.kind, ExprKind::If(..) | ExprKind::Match(..)) && self.head_depth == 0 && !child.ty.is_unit();
+        let bare_conditional = matches!(child.kind, ExprKind::If(..) | ExprKind::Match(..)) && self.head_depth == 0 && !child.ty.is_unit() && !(left && self.at_stmt_start);
         if (redundant && self.choice(2) == 0) || (bare_conditional && self.choice(3) == 0) {
             self.expr(child)
         } else {
@@ -654,7 +658,9 @@ impl<'a> Printer<'a> {
                 (i0, i1)
             }
             StmtKind::Expr(e) => {
+                self.at_stmt_start = true;
                 let se = self.stmt_expr(e);
+                self.at_stmt_start = false;
                 // `if` / `match` / block in statement position must not be followed by `;`
                 if !matches!(e.kind, ExprKind::If(..) | ExprKind::Match(..) | ExprKind::Block(..)) {
                     self.emit(";");
